@@ -21,11 +21,11 @@ import (
 // Concurrent phase: one index, a set of stable entries that nobody touches, writer goroutines that own
 // disjoint key sets (insert / delete / update / lookup of their own keys), reader goroutines looking up
 // stable keys, scanner goroutines running range scans. Oracles (all deterministic given the ownership):
-//  - every lookup of a stable key returns exactly its row id;
-//  - a writer's lookup of its own key right after its own insert / delete / update sees that operation;
-//  - every range scan is sorted, without duplicates, contains every stable entry in range and only
-//    entries that are stable or were inserted by some writer at some time;
-//  - after all goroutines joined, the full content equals stable entries + each writer's final entries.
+//   - every lookup of a stable key returns exactly its row id;
+//   - a writer's lookup of its own key right after its own insert / delete / update sees that operation;
+//   - every range scan is sorted, without duplicates, contains every stable entry in range and only
+//     entries that are stable or were inserted by some writer at some time;
+//   - after all goroutines joined, the full content equals stable entries + each writer's final entries.
 type ConcCase struct {
 	Kind    string `json:"kind"`
 	Writers int    `json:"writers"`
@@ -213,9 +213,7 @@ func runConc(c *ConcCase, cs *concStats) *vf.Failure {
 	}
 	done := make(chan struct{})
 	go func() { wg.Wait(); close(done) }()
-	select {
-	case <-done:
-	case <-time.After(90 * time.Second):
+	if !vf.WaitScheduled(done, 90*time.Second) {
 		atomic.StoreInt32(&stop, 1)
 		return vf.Failf("conc-hang:"+c.Kind, "writers did not finish within 90s (%d writes done)", atomic.LoadInt64(&cs.writes))
 	}
